@@ -393,6 +393,9 @@ def perturb_arch(rep, run_seed, idx, style, write='copy'):
                 # mask values on and next to the binarisation threshold 0.5 (and their negatives: PIT takes |.|)
                 ch = torch.randint(0, 7, p.shape, generator=g)
                 v = torch.tensor([0.5, 0.4999, 0.5001, -0.5, -0.4999, 1.0, 0.0])[ch]
+            elif style == 'permute':
+                # the same mask values on other positions: as many active channels / taps as before, another set
+                v = p.detach().flatten()[torch.randperm(p.numel(), generator=g)].reshape(p.shape).clone()
             elif style == 'allzero':
                 v = torch.zeros(p.shape)          # everything pruned down to the keep-alive elements
             elif style == 'gap_large':
